@@ -66,6 +66,7 @@ type Exchange struct {
 	RespLen   int
 	Fault     string
 	Redirect  bool // follow-up of a redirect (req.Response != nil)
+	NotSent   bool // the transport refused to send it (no host in the URL): nothing left the machine
 	Err       string
 }
 
@@ -300,6 +301,11 @@ func (n *Net) RoundTrip(req *http.Request) (*http.Response, error) {
 		}
 		simrt.Event("%s err=%v", x, err)
 		return nil, err
+	}
+	if req.URL.Host == "" || (req.URL.Scheme != "http" && req.URL.Scheme != "https") {
+		// http.Transport refuses such a request before anything is transmitted
+		x.NotSent = true
+		return fail(errors.New("http: no Host in request URL"))
 	}
 	if n.FreezeAt > 0 && x.Seq >= n.FreezeAt && !n.Frozen {
 		n.Frozen = true
